@@ -1,13 +1,13 @@
 (* Server.v — executable model of /repo/src/server.rs (ServerBehaviour) as driven by /repo/src/lib.rs.
 
-   Modelled items (server.rs line numbers of the tree at commit 13af1f7):
-     MAX_WANTLIST_ENTRIES_PER_PEER :35           PeerWantlist::process_wantlist :77-126
-     PeerWantlist::wantlist_replace :128-138     schedule_store_get :160-167
-     cancel_request :169-181                     process_incoming_message :183-221
-     new_blocks_available :223-225               new_connection_handler :227-235
-     on_peer_disconnected :238-247               update_handlers :249-293
-     process_store_get_results :295-313          poll :315-334
-     get_multiple_cids_from_store :468-480
+   Modelled items (server.rs line numbers of the tree at commit 93f60f4):
+     MAX_WANTLIST_ENTRIES_PER_PEER :35           PeerWantlist::process_wantlist :77-128
+     PeerWantlist::wantlist_replace :130-140     schedule_store_get :162-169
+     cancel_request :171-183                     process_incoming_message :185-223
+     new_blocks_available :225-227               new_connection_handler :229-237
+     on_peer_disconnected :240-249               update_handlers :251-295
+     process_store_get_results :297-315          poll :317-336
+     get_multiple_cids_from_store :470-482
 
    Representation.
    * `FnvHashMap<PeerId, PeerWantlist>`        -> association list  peer -> list cid   (`s_wants`)
@@ -114,18 +114,21 @@ Definition tasks_len (st : sstate) : N := len (s_ready st) + len (s_blocked st).
 (* ------------------------------------------------------------------------------------------- *)
 (* PeerWantlist::process_wantlist                                                                *)
 
-(* full wantlist: entries.filter_map(non-cancel, parsable).take(n): the items yielded.  `take`
-   stops pulling from the inner iterator once n items were yielded, so later entries are not
-   even parsed.  None = the parse panicked. *)
-Fixpoint full_yield (S : N) (n : N) (es : list entry) : option (list cid) :=
+(* full wantlist (server.rs:80-94):
+     let mut wanted_cids = FnvHashSet::default();
+     for e in entries { if wanted_cids.len() >= MAX { break }  if e.cancel { continue }
+                        if let Ok(cid) = CidGeneric::try_from(e.block) { wanted_cids.insert(cid); } }
+   The length test comes first: once the set holds MAX distinct CIDs no further entry is parsed; a
+   cancel entry is skipped before parsing.  None = the parse panicked. *)
+Fixpoint full_collect (S : N) (es : list entry) (acc : list cid) : option (list cid) :=
   match es with
-  | [] => Some []
+  | [] => Some acc
   | e :: es' =>
-      if n =? 0 then Some []
-      else if e_cancel e then full_yield S n es'
+      if MAX_WANTLIST_ENTRIES_PER_PEER <=? len acc then Some acc
+      else if e_cancel e then full_collect S es' acc
       else match cid_read_bytes S (e_block e) with
-           | ROk c => option_map (cons c) (full_yield S (n - 1) es')
-           | RErr => full_yield S n es'
+           | ROk c => full_collect S es' (cadd c acc)
+           | RErr => full_collect S es' acc
            | RPanic => None
            end
   end.
@@ -165,10 +168,9 @@ Inductive pw_result :=
 
 Definition process_wantlist (S : N) (old : list cid) (w : wantlist) : pw_result :=
   if w_full w then
-    match full_yield S MAX_WANTLIST_ENTRIES_PER_PEER (w_entries w) with
+    match full_collect S (w_entries w) [] with
     | None => PwPanic
-    | Some l =>
-        let new := cset_of_list l in                             (* .collect() into a set *)
+    | Some new =>
         PwOk new
              (filter (fun c => negb (cmem c old)) new)           (* cids.difference(&self.0) *)
              (filter (fun c => negb (cmem c new)) old)           (* self.0.difference(&cids) *)
@@ -409,7 +411,7 @@ Fixpoint entry_cids (S : N) (cancel : bool) (es : list entry) : list cid :=
 
 Definition N_firstn {A} (n : N) (l : list A) : list A := firstn (N.to_nat n) l.
 
-(* add in message order while the set has room *)
+(* add distinct CIDs in message order while the set has room *)
 Fixpoint add_capped (adds s : list cid) : list cid :=
   match adds with
   | [] => s
@@ -418,7 +420,7 @@ Fixpoint add_capped (adds s : list cid) : list cid :=
 
 Definition view_msg (S : N) (w : wantlist) (s : list cid) : list cid :=
   if w_full w then
-    cset_of_list (N_firstn MAX_WANTLIST_ENTRIES_PER_PEER (entry_cids S false (w_entries w)))
+    add_capped (entry_cids S false (w_entries w)) []
   else
     add_capped (entry_cids S false (w_entries w))
                (fold_left (fun s c => cremove c s) (entry_cids S true (w_entries w)) s).
